@@ -68,7 +68,7 @@ def check_c19(prop, tier):
         hs = [qscen([rp["calls"]], {"mode": "fixed", "seq": []}) for rp in replays]
         h = run_harness("queue", hs, work, "rp")
         s = tv(h["trace"], "TraceQueue", "TraceQueue", work, timeout=3000)
-        ends = [l for l in read_trace_lines(h["trace"]) if l["k"] == "end"]
+        ends = trace_lines_of_kind(h["trace"], "end")
         mism = sum(1 for rp, e in zip(replays, ends) if e["st"] != rp["final"])
         res.add(replayed_model_behaviours=len(replays), replay_final_mismatch=mism, replay_drifts=len(s["drifts"]),
                 traces_validated_against_impl=s["execs"], calls_judged=s["seqjudged"], events_validated=s["lines"])
